@@ -41,7 +41,7 @@ pub struct NeedleSpec {
     pub bits: u64,
 }
 
-pub const NEEDLE_KINDS: [&str; 12] = [
+pub const NEEDLE_KINDS: [&str; 13] = [
     "random-256",
     "random-small-alphabet",
     "periodic u^k",
@@ -54,6 +54,7 @@ pub const NEEDLE_KINDS: [&str; 12] = [
     "bytes colliding mod 64",
     "common bytes + one rare byte",
     "two equal rare bytes",
+    "v W^k with W a word of 9..=24 distinct letters",
 ];
 
 pub fn build_needle(s: &NeedleSpec) -> Vec<u8> {
@@ -127,6 +128,21 @@ pub fn build_needle(s: &NeedleSpec) -> Vec<u8> {
                 v[p] = [b'Q', 0xF7, b'~', 0x00][(s.bits as usize >> 2) % 4];
             }
         }
+        12 => {
+            let wl = 9 + (s.bits as usize >> 3) % 16;
+            let pool = b"eaiotnslrhdcumZqwfgypbvkjxQ0123456789";
+            let start = (s.bits as usize >> 12) % pool.len();
+            let w: Vec<u8> = (0..wl).map(|i| pool[(start + i * 7) % pool.len()]).collect();
+            let vl = 1 + (s.bits as usize >> 20) % 3;
+            for i in 0..vl.min(len) {
+                v.push([s.a, b'a', b'#'][i % 3]);
+            }
+            let mut i = 0;
+            while v.len() < len {
+                v.push(w[i % wl]);
+                i += 1;
+            }
+        }
         _ => {
             let common = b"eta ";
             for _ in 0..len {
@@ -155,7 +171,7 @@ pub fn needle_spec() -> impl Strategy<Value = NeedleSpec> {
         6 => 65usize..=600,
         1 => 601usize..=3000,
     ];
-    (0u8..12, len, any::<u8>(), any::<u8>(), 1usize..=12, any::<u64>()).prop_map(|(kind, len, a, b, ulen, bits)| {
+    (0u8..13, len, any::<u8>(), any::<u8>(), 1usize..=12, any::<u64>()).prop_map(|(kind, len, a, b, ulen, bits)| {
         let b = if b == a { a.wrapping_add(1) } else { b };
         NeedleSpec { kind, len, a, b, ulen, bits }
     })
@@ -184,6 +200,10 @@ pub enum Piece {
     LongQuiet(u16),
     /// needle[k..] needle[..k]: a phase shift of a periodic needle
     Rotation(u16),
+    /// a run of one byte taken from the needle at a fraction of its length (0 = first, 65535 = last)
+    NeedleByteRun(u16, u16),
+    /// the smallest period of the needle's second half, repeated r times
+    SuffixPeriods(u8),
 }
 
 pub fn piece() -> impl Strategy<Value = Piece> {
@@ -201,6 +221,8 @@ pub fn piece() -> impl Strategy<Value = Piece> {
         2 => (50u8..=90).prop_map(Piece::FalseCandidates),
         1 => prop_oneof![4 => 200u16..=2000, 1 => 2001u16..=40000].prop_map(Piece::LongQuiet),
         2 => (0u16..=65535).prop_map(Piece::Rotation),
+        2 => (prop_oneof![Just(0u16), Just(65535u16), any::<u16>()], 1u16..=200).prop_map(|(f, k)| Piece::NeedleByteRun(f, k)),
+        2 => (1u8..=12).prop_map(Piece::SuffixPeriods),
     ]
 }
 
@@ -347,6 +369,23 @@ pub fn build_haystack_with_pair(needle: &[u8], pieces: &[Piece], max_len: usize,
                 let fb = foreign_byte(needle, 0x5A);
                 for _ in 0..*k {
                     h.push(fb);
+                }
+            }
+            Piece::SuffixPeriods(r) => {
+                if n > 0 {
+                    let half = &needle[n / 2..];
+                    let p = oracle::period(half).max(1);
+                    for _ in 0..*r {
+                        h.extend_from_slice(&half[..p.min(half.len())]);
+                    }
+                }
+            }
+            Piece::NeedleByteRun(f, k) => {
+                if n > 0 {
+                    let b = needle[frac(*f, n).min(n - 1)];
+                    for _ in 0..*k {
+                        h.push(b);
+                    }
                 }
             }
             Piece::Rotation(f) => {
